@@ -356,6 +356,36 @@ func runC11(c *mon.Ctx) {
 		if !bytes.Equal(out.Bytes(), in) {
 			c.Violate("C11/stream/reemit-differs", "streams", i, fmt.Sprintf("re-emitted stream differs at byte %d", firstDiff(out.Bytes(), in)), nil)
 		}
+		// the same stream with a PacketSkipper dropping a random subset: every packet that is returned must still be exactly the
+		// packet of the stream (nothing of a skipped packet may show in its neighbours)
+		keep := make([]bool, len(want))
+		for j := range keep {
+			keep[j] = r.IntN(3) > 0
+		}
+		calls := 0
+		cfgS := baseCfg("packet")
+		cfgS.Skipper = func(*astits.Packet) bool {
+			calls++
+			return calls-1 < len(keep) && !keep[calls-1]
+		}
+		runS := RunDemux(in, cfgS)
+		gotS := runS.Packets()
+		js := 0
+		for j := range want {
+			if !keep[j] {
+				continue
+			}
+			if runS.Panic != "" || js >= len(gotS) {
+				c.Violate("C11/stream/with-skipper-count", "streams", i, fmt.Sprintf("%d packets returned with a skipper keeping more (%s)", len(gotS), runS.Panic), map[string]any{"stream": mon.Hex(in, 2000)})
+				break
+			}
+			if d := mon.Diff(gotS[js], want[j], ignoreOneByte); d != "" {
+				c.Violate("C11/stream/with-skipper-field-differs:"+fieldOf(d), "streams", i, fmt.Sprintf("packet %d (returned as %d-th): %s", j, js, d), map[string]any{"stream": mon.Hex(in, 2000)})
+				break
+			}
+			js++
+			c.Count("stream_packets_compared_with_a_skipper")
+		}
 		c.Add("stream_packets", int64(len(got)))
 		c.Case(mon.HashBytes("stream", in), true)
 	}
